@@ -507,7 +507,7 @@ pub fn run(ctx: &Ctx) -> Shard {
             }
         }
         let mut rng = Rng::new(ctx.shard_seed());
-        let n_random = ctx.scale(if ctx.thorough() { 150 } else { 6 });
+        let n_random = ctx.scale(if ctx.thorough() { 1200 } else { 40 });
         for _ in 0..n_random {
             cases.push(random_case(&mut rng, ps));
         }
